@@ -7,8 +7,10 @@ RULE = ("ranges of 1-2 '||' groups of 1-3 clauses over >=, >, <, <=, ^, ~, ~=, !
         "versions; interpreters: every minor from 2.6 to 4.1 with patch levels 0, 1, 5, 10 (+ the patch levels mentioned by the range); "
         "backward: markers over python_version/python_full_version from the C06 domain (exact) and mixed with other clauses (upper "
         "bound); non-trivial = the range has two or more clauses or a bound with three components")
-MINORS = [(2, 6), (2, 7), (3, 0), (3, 4), (3, 5), (3, 6), (3, 7), (3, 8), (3, 9), (3, 10), (3, 11), (3, 12), (3, 13), (4, 0), (4, 1)]
-BASE = ["2.7", "3", "3.6", "3.7", "3.8", "3.9", "3.10", "3.6.1", "3.7.0", "3.8.5", "3.9.10", "3.10.1", "4", "4.0"]
+MINORS = [(2, 6), (2, 7), (3, 0), (3, 1), (3, 2), (3, 3), (3, 4), (3, 5), (3, 6), (3, 7), (3, 8), (3, 9), (3, 10), (3, 11), (3, 12), (3, 13), (4, 0), (4, 1)]
+# bounds whose text ends in 0 / .0 / 10 / .10.0 are there on purpose: the conversions trim and pad trailing ".0" textually (C11-1)
+BASE = ["2.7", "3", "3.6", "3.7", "3.8", "3.9", "3.10", "3.6.1", "3.7.0", "3.8.5", "3.9.10", "3.10.1", "4", "4.0",
+        "3.10.0", "3.10.0", "3.11.0", "3.0", "3.0.0", "3.1", "3.10.10", "3.2.0"]
 def gen_range(rng):
     groups = []
     for _ in range(rng.choice([1, 1, 1, 2])):
